@@ -817,7 +817,13 @@ def judge(case, o):
     j = judge_cover(case, o, res, api)
     if j:
         v.append(j)
-    if api == "gas" and "div" in o:
+    if api == "gas" and "div" in o and o.get("inst", {}).get("same_crs"):
+        # the generator decides "different CRS" on the spelling (3035 vs "EPSG:3035" differ as text); when pyproj says the
+        # two CRSs are equal the same-CRS branch is taken, which returns before the divisible adjustment: C11's same-CRS
+        # clause (exceed the exact cover by at most one pixel per side) is what binds there, and growing to a multiple would
+        # break it.  No divisibility demand on those pairs (counted).
+        case["_div_not_judged_same_crs"] = True
+    elif api == "gas" and "div" in o:
         dv, dl = judge_divisible(case, res, o["div"])
         v.extend(dv)
         case["_div_lines"] = dl
@@ -939,6 +945,8 @@ def run(ctx):
         if c.get("_div_lines"):
             L_div.extend(c["_div_lines"])
             ctx.count("gas:shape_divisible_by_axes", len(c["_div_lines"]))
+        if c.get("_div_not_judged_same_crs"):
+            ctx.count("gas:shape_divisible_by_not_judged_same_crs")
         if c.get("_history"):
             ctx.count("history:%s_repeated_through_cache" % api)
         if "_bil_ok" in c:
